@@ -41,11 +41,15 @@ byinput = collections.defaultdict(lambda: collections.defaultdict(set))
 for f in r['findings']:
     if f['clause'].startswith(('B_', 'I_')):
         continue
+    if f['config'].startswith('nspaces4 ') or f['config'] == 'nspaces4' or 'number_of_spaces=0' in f['config']:
+        continue      # number_of_spaces: 0 on every rule at once is no longer explored (see harness/configs.py)
     if f['rule']:
         byrule[(f['property'], f['clause'], f['rule'])].add(f['config'].split(' ')[0].rstrip('0123456789'))
     else:
         fam = f['config'].split(' ')[0]
-        fam = 'sweep' if fam.startswith('sweep') else ('variant' if fam.startswith('variant') else fam)
+        for pre in ('sweep', 'variant', 'nspaces', 'affix'):
+            if fam.startswith(pre):
+                fam = pre
         byinput[(f['property'], f['clause'])][fam].add(f['input'].split('#')[0])
 known = [e for e in old['known'] if e.get('source') == 'manual']      # entries of the other families are written by hand
 for k in sorted(byrule):
@@ -56,7 +60,7 @@ for k in sorted(byinput):
     prop, clause = k
     for fam, inputs in sorted(byinput[k].items()):
         e = {"property": prop, "clause": clause, "rule": "", "what": WHAT.get(clause, clause) + " (inputs listed; configuration family: %s)" % fam, "input": sorted(inputs)}
-        e["config_contains"] = fam if fam in ("sweep", "variant") else None
+        e["config_contains"] = fam if fam in ("sweep", "variant", "nspaces", "affix") else None
         if e["config_contains"] is None:
             del e["config_contains"]
             e["config"] = fam
